@@ -1,21 +1,32 @@
-(* Reads "op hexA hexB" lines; operands are 160-bit unsigned values (hex); prints the result
-   of the extracted model, one line per case.  Integers for from*/to* are signed hex. *)
+(* Reads "op arg..." lines; bint operands are 160-bit unsigned values (hex); Lua integers are
+   signed hex; strings are hex-encoded bytes.  Prints the result of the extracted model, one
+   line per case. *)
 open Model
 open Zutil
 
 let size = int_of_nat bINT_SIZE
-let two32 = z_of_hex "100000000"
 
-(* hex (unsigned, < 2^160) -> limbs, via plain bit slicing (not through the model) *)
+(* hex (unsigned, < 2^160) -> limbs, via plain text slicing (not through the model) *)
 let limbs_of_hex (s : string) : z list =
   let s = String.make (max 0 (size * 8 - String.length s)) '0' ^ s in
   let n = String.length s in
   List.init size (fun i -> z_of_hex (String.sub s (n - 8 * (i + 1)) 8))
 
-let hex_of_limbs (l : z list) : string =
-  String.concat "," (List.map hex_of_z l)
-
+let hex_of_limbs (l : z list) : string = String.concat "," (List.map hex_of_z l)
 let b2s b = if b then "true" else "false"
+let str_of_codes (l : z list) : string = String.concat "" (List.map (fun c -> String.make 1 (Char.chr (int_of_z c land 255))) l)
+
+let err_s = function
+  | EDivZero -> "!err divzero"
+  | EDivOverflow -> "!err overflow"
+  | ENil -> "!err nil"
+  | EFuel -> "!err FUEL"
+  | ENone -> "nil"
+
+let opt_limbs = function Some l -> hex_of_limbs l | None -> "!err FUEL"
+let res_limbs = function Ok l -> hex_of_limbs l | Err e -> err_s e
+let res_pair = function Ok (q, r) -> hex_of_limbs q ^ " " ^ hex_of_limbs r | Err e -> err_s e
+let res_str = function Ok s -> str_of_codes s | Err e -> err_s e
 
 let () =
   iter_lines (fun line ->
@@ -23,6 +34,11 @@ let () =
     | [] -> ()
     | op :: args ->
       let a i = limbs_of_hex (List.nth args i) in
+      let zi i = z_of_hex (List.nth args i) in
+      let ni i = nat_of_int (int_of_string (List.nth args i)) in
+      let bytes i = let s = List.nth args i in if s = "-" then [] else zlist_of_hexbytes s in
+      let optz i = if List.nth args i = "nil" then None else Some (zi i) in
+      let flag i = List.nth args i = "t" in
       let out =
         try
           (match op with
@@ -44,10 +60,45 @@ let () =
            | "lt" -> b2s (blt (a 0) (a 1))
            | "le" -> b2s (ble (a 0) (a 1))
            | "isneg" -> b2s (isneg (a 0))
-           | "fromuinteger" -> hex_of_limbs (fromuinteger (z_of_hex (List.nth args 0)))
-           | "frominteger" -> hex_of_limbs (frominteger (z_of_hex (List.nth args 0)))
+           | "fromuinteger" -> hex_of_limbs (fromuinteger (zi 0))
+           | "frominteger" -> hex_of_limbs (frominteger (zi 0))
            | "touinteger" -> hex_of_z (touinteger (a 0))
            | "tointeger" -> hex_of_z (tointeger (a 0))
+           | "shlwords" -> hex_of_limbs (shlwords (a 0) (ni 1))
+           | "shrwords" -> hex_of_limbs (shrwords (a 0) (ni 1))
+           | "shl" -> opt_limbs (bshl (a 0) (zi 1))
+           | "shr" -> opt_limbs (bshr (a 0) (zi 1))
+           | "bwrap" -> opt_limbs (bwrap (a 0) (zi 1))
+           | "brol" -> opt_limbs (brol (a 0) (zi 1))
+           | "bror" -> opt_limbs (bror (a 0) (zi 1))
+           | "iszero" -> b2s (biszero (a 0))
+           | "isone" -> b2s (bisone (a 0))
+           | "isminusone" -> b2s (bisminusone (a 0))
+           | "iseven" -> b2s (biseven (a 0))
+           | "isodd" -> b2s (bisodd (a 0))
+           | "mininteger" -> hex_of_limbs bint_mininteger
+           | "maxinteger" -> hex_of_limbs bint_maxinteger
+           | "abs" -> hex_of_limbs (babs (a 0))
+           | "max" -> hex_of_limbs (bmax (a 0) (a 1))
+           | "min" -> hex_of_limbs (bmin (a 0) (a 1))
+           | "udivmod" -> res_pair (udivmod (a 0) (a 1))
+           | "udiv" -> res_limbs (udiv (a 0) (a 1))
+           | "umod" -> res_limbs (umod (a 0) (a 1))
+           | "tdivmod" -> res_pair (tdivmod (a 0) (a 1))
+           | "idivmod" -> res_pair (idivmod (a 0) (a 1))
+           | "idiv" -> res_limbs (bidiv (a 0) (a 1))
+           | "mod" -> res_limbs (bmod (a 0) (a 1))
+           | "ipow" -> res_limbs (ipow (a 0) (a 1))
+           | "upowmod" -> res_limbs (upowmod (a 0) (a 1) (a 2))
+           | "compress" -> (match compress (a 0) with Inl i -> "i " ^ hex_of_z i | Inr b -> "b " ^ hex_of_limbs b)
+           | "tobase" -> res_str (tobase (a 0) (zi 1) (match List.nth args 2 with "t" -> Some true | "f" -> Some false | _ -> None))
+           | "frombase" -> res_limbs (frombase (bytes 0) (zi 1))
+           | "from_bin" -> res_limbs (bn_from_bin (flag 0) (bytes 1))
+           | "from_hex" -> res_limbs (bn_from_hex (flag 0) (bytes 1))
+           | "from_dec" -> res_limbs (bn_from_dec (bytes 0))
+           | "tohexint" -> res_str (tohexint (a 0) (optz 1))
+           | "tobinint" -> res_str (tobinint (a 0) (optz 1))
+           | "todecint" -> res_str (todecint (a 0))
            | _ -> "?unknown-op")
         with e -> "!exn " ^ Printexc.to_string e
       in
